@@ -637,6 +637,10 @@ func (c *FnCtx) mergeVals(vals []Val, in []edge, t types.Type, name string) Val 
 				}
 			}
 		}
+		if v.Dyn != nil {
+			// interface values: the static pointer information is a convenience (modifies pointee(x)), dropped at merges
+			continue
+		}
 		if v.Root != nil {
 			if out.Root == nil {
 				out.Root = v.Root
